@@ -8,16 +8,36 @@ Props/C11.lean — the collection tree stays a consistent forest under any histo
   views       : the stored _sources/_sensors/_collections are the ordered typed filters of _children
   only_colls  : only collections have children
   inScope     : parent links stay among the existing objects
-/- FULL: … and no collection contains itself directly or indirectly (acyclicity).  The check that
-   enforces it is part of the model (`addOk`, following `add`'s `self in obj.collections_all`);
-   its preservation theorem is not proved yet — see `not_shown` in the evidence.  Acyclicity on
-   the real objects is evaluated by the invariant oracle after every operation. -/
+Acyclicity ("no collection contains itself directly or indirectly") is `Forest.Acyclic`
+(Lemmas/ForestAcyclic.lean): parent links strictly decrease a rank.  Its preservation rests on the
+soundness of `add`'s self-reference check, which walks the ancestors with fuel `n`: in a consistent,
+acyclic forest of `n` objects that walk is complete (distinct ancestors, pigeonhole).
 -/
 import MagpyVerif.Lemmas.Forest
+import MagpyVerif.Lemmas.ForestAcyclic
 namespace MagpyVerif.C11
 open MagpyVerif Forest
 
-/-- C11 (partial: all clauses except acyclicity): after any finite history of add / remove /
+/-- C11, all clauses: after any finite history of add / remove / parent= / children= / sources= /
+sensors= / collections= / `+` — accepted or rejected, any flags, any argument lists — the forest is
+consistent AND acyclic. -/
+theorem inv_reachable (kinds : List Kind) (ops : List FOp) :
+    (ops.foldl (fun s op => (s.step op).1) (Forest.init kinds)).Inv ∧
+    (ops.foldl (fun s op => (s.step op).1) (Forest.init kinds)).Acyclic := by
+  suffices h : ∀ s : Forest, s.Inv → s.Acyclic →
+      (ops.foldl (fun s op => (s.step op).1) s).Inv ∧ (ops.foldl (fun s op => (s.step op).1) s).Acyclic from
+    h _ (init_inv kinds) (init_acyclic kinds)
+  induction ops with
+  | nil => intro s h1 h2; exact ⟨h1, h2⟩
+  | cons op ops ih => intro s h1 h2; exact ih _ (step_inv s op h1) (step_acyclic s op h1 h2)
+
+/-- in an acyclic forest no object is its own ancestor: a collection never contains itself,
+directly or through any chain of nested collections -/
+theorem no_collection_contains_itself (s : Forest) (ha : s.Acyclic) (c p : Nat) (hp : s.parent c = some p) :
+    ¬ Reach s p c :=
+  acyclic_no_self_containment s ha c p hp
+
+/-- the consistency clauses alone (kept for reference): after any finite history of add / remove /
 parent= / children= / sources= / sensors= / collections= / `+` — accepted or rejected, with any
 override_parent / recursive / errors flags and any argument lists — the forest is consistent. -/
 theorem inv_reachable_partial (kinds : List Kind) (ops : List FOp) :
